@@ -150,6 +150,65 @@ theorem C12_key_independent (op : OpName) (k : String) (pv : V) (ctx ctx' : Ctx)
   unfold evalKey
   rw [hm, evalBase_ctx op.base k pv ctx ctx' h, hp]
 
+theorem allR_congr {α} (p q : α → R) (xs : List α) (h : ∀ x ∈ xs, p x = q x) : allR p xs = allR q xs := by
+  induction xs with
+  | nil => rfl
+  | cons x xs ih =>
+    simp only [allR, h x (by simp)]
+    rw [ih (fun y hy => h y (by simp [hy]))]
+
+/-- C12_block_context_local: the whole block — True, False or None alike — depends on the request context only
+    through the values of the keys the block names; every other context entry (added, removed or changed) is
+    irrelevant. -/
+theorem C12_block_context_local (blk : Block) (ctx ctx' : Ctx)
+    (h : ∀ o ∈ blk, ∀ kv ∈ o.2, ctxLookup kv.1 ctx = ctxLookup kv.1 ctx') : call blk ctx = call blk ctx' := by
+  have : evalBlock blk ctx = evalBlock blk ctx' := by
+    unfold evalBlock
+    apply allR_congr
+    intro o ho
+    unfold evalOp
+    apply allR_congr
+    intro kv hkv
+    exact C12_key_independent _ _ _ _ _ (h o ho kv hkv)
+  simp only [call, this]
+
+/-- C12_empty_block: a block with no operator is satisfied by every context. -/
+theorem C12_empty_block (ctx : Ctx) : call [] ctx = some true := by
+  simp [call, evalBlock, allR]
+
+/-- C12_conjunction: a block made of two groups of operators is satisfied exactly when each group is — the
+    operators are a conjunction, whatever their number. -/
+theorem C12_conjunction (b₁ b₂ : Block) (ctx : Ctx) :
+    call (b₁ ++ b₂) ctx = some true ↔ call b₁ ctx = some true ∧ call b₂ ctx = some true := by
+  simp only [C12_true_iff, builds, List.any_append, Bool.not_or, Bool.and_eq_true, List.mem_append]
+  constructor
+  · rintro ⟨⟨h₁, h₂⟩, h⟩
+    exact ⟨⟨h₁, fun o ho => h o (Or.inl ho)⟩, ⟨h₂, fun o ho => h o (Or.inr ho)⟩⟩
+  · rintro ⟨⟨h₁, g₁⟩, ⟨h₂, g₂⟩⟩
+    exact ⟨⟨h₁, h₂⟩, fun o ho => ho.elim (g₁ o) (g₂ o)⟩
+
+/-- C12_order_irrelevant: whether a block is satisfied does not depend on the order in which its operators (or,
+    inside an operator, its keys) are written, nor on repetitions: two blocks with the same operator entries,
+    each with the same key entries, are satisfied by the same contexts. -/
+theorem C12_order_irrelevant (blk blk' : Block) (ctx : Ctx)
+    (h : ∀ name kv, (∃ o ∈ blk, o.1 = name ∧ kv ∈ o.2) ↔ (∃ o ∈ blk', o.1 = name ∧ kv ∈ o.2)) :
+    call blk ctx = some true ↔ call blk' ctx = some true := by
+  have key : ∀ b b' : Block,
+      (∀ name kv, (∃ o ∈ b, o.1 = name ∧ kv ∈ o.2) → (∃ o ∈ b', o.1 = name ∧ kv ∈ o.2)) →
+      call b' ctx = some true → call b ctx = some true := by
+    intro b b' hsub
+    rw [C12_true_iff, C12_true_iff]
+    rintro ⟨hb, hall⟩
+    constructor
+    · simp only [builds, Bool.not_eq_true', List.any_eq_false, Bool.not_eq_true] at hb ⊢
+      intro o ho kv hkv
+      obtain ⟨o', ho', _, hkv'⟩ := hsub o.1 kv ⟨o, ho, rfl, hkv⟩
+      simpa using hb o' ho' kv hkv'
+    · intro o ho kv hkv
+      obtain ⟨o', ho', hn, hkv'⟩ := hsub o.1 kv ⟨o, ho, rfl, hkv⟩
+      rw [← hn]; exact hall o' ho' kv hkv'
+  exact ⟨key blk' blk (fun n kv => (h n kv).2), key blk blk' (fun n kv => (h n kv).1)⟩
+
 /-! ### Values and qualifiers -/
 
 /-- C12_ifexists: an operator with the IfExists suffix is satisfied when its key is absent (or None) -/
@@ -260,5 +319,10 @@ example : call [("StringNotEquals", [("a", .list [.str "1" "1", .str "2" "2"])])
 example : call [("ForAllValuesStringEquals", [("a", .list [.str "1" "1", .str "2" "2"])]), ("NumericLessThan", [("n", .int 5)])]
     [("a", .list [.str "1" "1", .str "2" "2"]), ("n", .int 4)] = some true := by decide +kernel
 example : call [("NumericLessThan", [("n", .int 5)])] [] = none := by decide +kernel
+-- order of operators and keys; an unrelated context entry
+example : call [("NumericLessThan", [("n", .int 5)]), ("StringEquals", [("a", .str "1" "1")])]
+      [("zzz", .int 0), ("a", .str "1" "1"), ("n", .int 4)] = some true ∧
+    call [("StringEquals", [("a", .str "1" "1")]), ("NumericLessThan", [("n", .int 5)])]
+      [("n", .int 4), ("a", .str "1" "1")] = some true := by decide +kernel
 
 end PycfModel.IamCond
